@@ -845,6 +845,11 @@ impl Exec {
         let mut max_page = 0usize;
         let mut same_tip = true;
         let mut first: Option<(Vec<u8>, u32)> = None;
+        // a complete answer cannot need more pages than there are outputs in the universe (+ the last, possibly
+        // empty, one): a walk that goes on is cut there and fails the once / entries comparison, instead of
+        // producing an answer of thousands of repeated entries
+        let per_page: u64 = if limit > 0 { limit as u64 } else { 1000 };
+        let page_cap: u64 = self.uni.tx_specs.values().map(|t| t.outs.len() as u64).sum::<u64>() / per_page + 3;
         let ans = loop {
             match self.call_utxos(&addr, &net, filter.take(), &mode, limit) {
                 Err(()) => break Self::trap_answer(),
@@ -864,7 +869,7 @@ impl Exec {
                         all.push(self.utxo_json(x));
                     }
                     match r.next_page {
-                        Some(p) if pages < 10_000 => {
+                        Some(p) if pages < page_cap => {
                             filter = Some(UtxosFilterInRequest::Page(p));
                         }
                         _ => {
